@@ -59,28 +59,56 @@ Definition obs_eqb (o : op) (m i : obs) : bool :=
   match o with Flush _ | PurgeDB => db_eqb (o_db m) (o_db i) | _ => true end.
 
 Definition case : Type :=
-  (Z * Z * bool * list Z * list ((Z * Z) * Z) * list (Z * Z) * list (Z * Z) * list (op * obs))%type.
+  (Z * Z * bool * list Z * list ((Z * Z) * Z) * list (Z * Z) * list (Z * Z) * list (xop * obs))%type.
 
-Fixpoint first_mismatch (Hf : Z -> Z -> Z) (fh fsize : Z -> Z) (best cap : Z) (persist : bool)
-    (st : gstate) (i : Z) (tr : list (op * obs)) : option Z :=
+Definition xop_inner (o : xop) : op := match o with XBase o' => o' | XRewrite _ _ => DropCache end.
+Definition xobs_eqb (o : xop) (m i : obs) : bool :=
+  match o with
+  | XBase o' => obs_eqb o' m i
+  | XRewrite _ _ => list_eqb pair_eqb (o_cache m) (o_cache i) && db_eqb (o_db m) (o_db i)
+  end.
+
+Fixpoint first_mismatch (Hf : Z -> Z -> Z) (fsize : Z -> Z) (cap : Z) (persist : bool)
+    (st : xstate) (i : Z) (tr : list (xop * obs)) : option Z :=
   match tr with
   | [] => None
   | (o, ob) :: rest =>
-    let '(st', mo) := step Hf fh fsize best cap persist st o in
-    if obs_eqb o mo ob then first_mismatch Hf fh fsize best cap persist st' (i + 1) rest else Some i
+    let '(st', mo) := xstep Hf fsize cap persist st o in
+    if xobs_eqb o mo ob then first_mismatch Hf fsize cap persist st' (i + 1) rest else Some i
+  end.
+
+(* ghost flag of the model after step i of the trace *)
+Fixpoint stale_after (Hf : Z -> Z -> Z) (fsize : Z -> Z) (cap : Z) (persist : bool)
+    (st : xstate) (k i : Z) (tr : list (xop * obs)) : bool :=
+  match tr with
+  | [] => stale st
+  | (o, _) :: rest =>
+    let st' := fst (xstep Hf fsize cap persist st o) in
+    if k =? i then stale st' else stale_after Hf fsize cap persist st' (k + 1) i rest
   end.
 
 (* rows (case id, kind, step, tag): kind 1 = model and implementation differ
-   at step; kind 2 = the monitor rejects the implementation trace at step
-   (no ghost root-cause flags in this model: tag 0) *)
+   at step; kind 2 = a monitor rejects the implementation trace at step:
+   tag 0 = the core monitor (or the strict one while the model's ghost flag is
+   clear); tag 1 = only the strict monitor rejects and the model state is
+   flagged stale (root cause 1: entries not invalidated by a header rewrite) *)
 Definition verdict_of (c : Z * case) : list (Z * Z * Z * Z) :=
   let '(id, (best, cap, persist, fhs, hft, szt, d0, tr)) := c in
   let Hf := t_Hf hft in let fh := t_fh fhs in
-  (match first_mismatch Hf fh (t_size szt) best cap persist
-           {| cache := []; db := d0; dbq := [] |} 0 tr with
+  let st0 := {| base := {| cache := []; db := d0; dbq := [] |}; hdrs := fh; xbest := best; stale := false |} in
+  (match first_mismatch Hf (t_size szt) cap persist st0 0 tr with
    | Some i => [(id, 1, i, 0)] | None => [] end) ++
   (if all_verified Hf fh d0
-   then match first_bad Hf fh best 0 [] d0 [] tr with Some i => [(id, 2, i, 0)] | None => [] end
+   then
+     let core := xfirst_bad Hf false fh best 0 [] d0 [] tr in
+     let strict := xfirst_bad Hf true fh best 0 [] d0 [] tr in
+     (match core with Some i => [(id, 2, i, 0)] | None => [] end) ++
+     (match strict with
+      | Some i =>
+        if (match core with Some j => j =? i | None => false end) then []
+        else [(id, 2, i, if stale_after Hf (t_size szt) cap persist st0 0 i tr then 1 else 0)]
+      | None => []
+      end)
    else [(id, 2, -1, 0)]).
 
 Definition run_cases (cs : list (Z * case)) : list (Z * Z * Z * Z) := flat_map verdict_of cs.
@@ -88,9 +116,13 @@ Definition run_cases (cs : list (Z * case)) : list (Z * Z * Z * Z) := flat_map v
 (* constructors used by the generated files *)
 Definition R_ (req : Z) (cf ty : bool) (blk : Z) (dec : bool) (f : Z) : resp :=
   {| r_req := req; r_is_cfilter := cf; r_type_ok := ty; r_blk := blk; r_decode_ok := dec; r_filt := f |}.
-Definition C_ (blk : Z) (known ft : bool) (batch maxb : Z) (rs : list resp) (v : verdict) : op :=
-  Call {| c_blk := blk; c_known := known; c_ftype_ok := ft; c_batch := batch; c_maxbatch := maxb;
-          c_resps := rs; c_verdict := v |}.
+Definition C_ (blk : Z) (known ft : bool) (batch maxb : Z) (rs : list resp) (v : verdict) : xop :=
+  XBase (Call {| c_blk := blk; c_known := known; c_ftype_ok := ft; c_batch := batch; c_maxbatch := maxb;
+          c_resps := rs; c_verdict := v |}).
+Definition XF (n : Z) : xop := XBase (Flush n).
+Definition XD : xop := XBase DropCache.
+Definition XP : xop := XBase PurgeDB.
+Definition XR (nb : Z) (fhs : list Z) : xop := XRewrite nb (t_fh fhs).
 Definition O_ (r : result) (q : bool) (rg : Z * Z) (pg : list progress)
     (cache db : list (Z * Z)) : obs :=
   {| o_res := r; o_queried := q; o_range := rg; o_prog := pg; o_cache := cache; o_db := db |}.
